@@ -50,6 +50,7 @@ MCNext ==
   \/ (QSearch \/ QSync) /\ UNCHANGED <<used, nq>> /\ H([op |-> "qstep"])
   \/ QUpdate /\ UNCHANGED <<used, nq>> /\ H([op |-> "qupdate", done |-> q'.phase = "idle"])
   \/ QEnd /\ UNCHANGED <<used, nq>> /\ H([op |-> "qend"])
+  \/ QSearchFails /\ UNCHANGED <<used, nq>> /\ H([op |-> "qend"])
 
 MCSpec == MCInit /\ [][MCNext]_<<vars, used, nq, hist>>
 View == <<vars, used, nq>>
